@@ -186,10 +186,16 @@ def evaluate(c, rec):
                 blobs.append(bytes(pgpy.PGPKey.from_blob(b2)[0]))
                 models.append(m2)
             if len(blobs) > 1:
+                repeat = bool(c['layout'] & 2)
+                if repeat:
+                    # the first certificate occurs once more at the end (keyring dumps and merged exports contain such repeats):
+                    # every certificate still gets its own components and nobody else's
+                    blobs.append(blobs[0])
                 data = b''.join(blobs)
                 first, rest = pgpy.PGPKey.from_blob(armor.write_block('PRIVATE KEY BLOCK' if c['secret'] else 'PUBLIC KEY BLOCK', data) if c['armored'] else data)
                 keys = [first] + [k for k in rest.values() if k is not first]
-                if sorted(str(k.fingerprint) for k in keys) != sorted(m.fpr for m in models):
+                rec.note('concatenation-with-repeat' if repeat else 'concatenation')
+                if (sorted(set(str(k.fingerprint) for k in keys)) if repeat else sorted(str(k.fingerprint) for k in keys)) != sorted(m.fpr for m in models):
                     rec.finding('concat', 'keys-split-wrongly', c, '%r vs %r' % (sorted(str(k.fingerprint) for k in keys), sorted(m.fpr for m in models)))
                 else:
                     for k in keys:
